@@ -127,8 +127,27 @@ def tables : String :=
   let as := arraySites.map (fun s => s!"{s.func}:{s.param}:rank={s.rank}:safe={siteSafe s}")
   let gs := argStores.map (fun s =>
     s!"{s.func}:{s.param}:{match s.kind with | .none => "none" | .content => "content" | .identity => "identity"}:ok={argStoreOK s}")
+  let rs := returnSites.map (fun s =>
+    s!"{s.func}:{match s.kind with | .fresh => "fresh" | .cached => "cached" | .constant => "constant" | .argument => "argument"}:ok={returnOK s}")
   " ".intercalate ms ++ " || " ++ " ".intercalate cs ++ " || " ++ " ".intercalate as
-    ++ " || " ++ " ".intercalate gs
+    ++ " || " ++ " ".intercalate gs ++ " || " ++ " ".intercalate rs
+
+/-! `ret <site> call;write 0 9;call`: per call `value@buffer` -/
+def retRun (site : Nat) (toks : List String) : String :=
+  match returnSites[site]? with
+  | none => "bad-op"
+  | some s =>
+    let r := toks.foldl (fun (acc : RState × List String) tok =>
+      match words tok with
+      | ["call"] =>
+        let st' := stepR s.kind 1 acc.1 .call
+        (st'.1, acc.2 ++ [s!"{(st'.2).getD 0}@{st'.1.results.getLast?.getD 0}"])
+      | ["write", r, v] =>
+        match r.toNat?, v.toInt? with
+        | some r, some v => ((stepR s.kind 1 acc.1 (.write r v)).1, acc.2 ++ ["ok"])
+        | _, _ => (acc.1, acc.2 ++ ["bad-op"])
+      | _ => (acc.1, acc.2 ++ ["bad-op"])) (initR, [])
+    ";".intercalate r.2
 
 /-! histories of calls with caller-owned tables: `args <site> new 1,2;call 0;mut 0 7,2;call 0`
     answers, per call, with the table values the returned result was computed from -/
@@ -173,6 +192,10 @@ def step (line : String) : String :=
     | some idx, some sh, some st, some vals => siteOp idx (w == "1") sh st vals (parsePars pars)
     | _, _, _, _ => "bad-op"
   | "memo" :: rest => memoRun ((" ".intercalate rest).splitOn ";")
+  | "ret" :: site :: rest =>
+    match site.toNat? with
+    | some site => retRun site ((" ".intercalate rest).splitOn ";")
+    | none => "bad-op"
   | "args" :: site :: rest =>
     match site.toNat? with
     | some site => argRun site ((" ".intercalate rest).splitOn ";")
